@@ -187,7 +187,9 @@ def run_job(unit, job, c_path, workdir, tier):
             res['cmds'].append(' '.join(cbmc_cmd(job, binary, ['--property', '<one process per obligation for %d obligations, one more for the other %d>' % (len(sel), len(rest))])))
             for grp, (rc, out, w) in outs:
                 if rc == -9:
-                    res['status'] = 'timeout'; res['note'] = 'timeout on ' + grp[0]; continue
+                    res['status'] = 'timeout'; res['note'] = 'timeout on ' + grp[0]
+                    allres += [dict(property=pid, description='(cbmc exceeded the time limit on this obligation)', status='TIMEOUT') for pid in grp]
+                    continue
                 results, msgs, solver, backend = parse_cbmc_json(out)
                 if results is None:
                     res['status'] = 'error'; res['note'] = 'cbmc output unparsable for ' + grp[0] + out[-500:]; continue
@@ -195,6 +197,8 @@ def run_job(unit, job, c_path, workdir, tier):
                 gs = set(grp)
                 allres += [r for r in results if r['property'] in gs]
             res['results'] = allres
+            if res['status'] == 'timeout' and any(r['status'] == 'FAILURE' and r.get('description') != 'VERIF_REACH' for r in allres):
+                res['status'] = 'ok'      # a refuted obligation decides the job; the timed-out ones are listed as undecided statuses
             res['backend'] = 'SAT (minisat2, cbmc default), one process per obligation'
         else:
             cmd = cbmc_cmd(job, binary)
